@@ -24,6 +24,10 @@ def build_ops(n, edges, extras=True, wextras=False, weak_edges=(), names=None):
             ops.append({'op': 'wextras', 'h': H(i), 'n': 'w%d' % i})
     t = 0
     for (i, j, rec, same) in edges:
+        if same == 'noop':
+            # adopt(&h, &h) through the very same handle and nothing stored (upstream's "no effect" self adoption)
+            ops.append({'op': 'adopt', 'a': H(i), 'b': H(i)})
+            continue
         if same:
             # adopt(&h, &h) through the very same handle, then a self handle is stored
             ops.append({'op': 'adopt', 'a': H(i), 'b': H(i)})
@@ -46,8 +50,8 @@ def canon(n, edges):
     """canonical form of a shape under object renaming"""
     best = None
     for p in itertools.permutations(range(n)):
-        e = tuple(sorted((p[i], p[j], r, s) for (i, j, r, s) in edges))
-        if best is None or e < best:
+        e = tuple(sorted(((p[i], p[j], r, s) for (i, j, r, s) in edges), key=str))
+        if best is None or str(e) < str(best):
             best = e
     return best
 
@@ -65,22 +69,25 @@ def pair_options(max_mult, recorded_only=False, allow_unrecorded=True):
     return opts
 
 
-def self_options(allow_same=True, allow_unrecorded=True, recorded_only=False):
+def self_options(allow_same=True, allow_unrecorded=True, recorded_only=False, allow_noop=False):
     o = [()]
     if allow_unrecorded and not recorded_only:
         o.append(((False, False),))
     o.append(((True, False),))
     if allow_same:
         o.append(((True, True),))
+    if allow_noop:
+        o.append(((True, 'noop'),))
+        o.append(((True, 'noop'), (True, 'noop')))
     return o
 
 
-def shapes(n, max_mult=1, max_edges=None, recorded_only=False, allow_same=True, self_edges=True, connected=True):
+def shapes(n, max_mult=1, max_edges=None, recorded_only=False, allow_same=True, self_edges=True, connected=True, allow_noop=False):
     """all shapes over n objects up to symmetry"""
     pairs = [(i, j) for i in range(n) for j in range(n) if i != j]
     selfs = [(i, i) for i in range(n)] if self_edges else []
     popts = pair_options(max_mult, recorded_only)
-    sopts = self_options(allow_same, recorded_only=recorded_only)
+    sopts = self_options(allow_same, recorded_only=recorded_only, allow_noop=allow_noop)
     seen = set()
     out = []
     for combo in itertools.product(*([popts] * len(pairs) + [sopts] * len(selfs))):
@@ -152,6 +159,8 @@ def named_shapes(n):
         out['ring%d+tail' % (n - 1)] = [R(i, (i + 1) % (n - 1)) for i in range(n - 1)] + [R(n - 2, n - 1)]
         out['ring%d+selfclone' % n] = ring + [(0, 0, True, False)]
         out['ring%d+selfsame' % n] = ring + [(0, 0, True, True)]
+        # an outside owner that has adopted a member of a ring (it is not part of the cycle itself)
+        out['owner-of-ring%d' % (n - 1)] = [R(0, 1)] + [R(1 + i, 1 + (i + 1) % (n - 1)) for i in range(n - 1)]
     if n >= 4:
         # two rings sharing member 0: 0-1 and 0-2-3
         out['tworings%d' % n] = [R(0, 1), R(1, 0), R(0, 2), R(2, 3), R(3, 0)]
@@ -161,5 +170,5 @@ def named_shapes(n):
 def describe(n, edges):
     parts = []
     for (i, j, r, s) in edges:
-        parts.append('%d%s%d' % (i, '=>' if r and not s else ('~>' if s else '->'), j))
+        parts.append('%d%s%d' % (i, '=>' if r and not s else ('~noop~' if s == 'noop' else ('~>' if s else '->')), j))
     return 'N%d[%s]' % (n, ' '.join(parts))
